@@ -598,6 +598,10 @@ def emit(n, cx):
                 e2 = "(if %s then %s else %s)" % (emit(arms[1][1], cx), e2, e3)
             return "(match %s with Some %s => %s | None => match %s with Some %s => %s | None => %s end end)" % (
                 emit(scrut[1][0], cx), x, emit(arms[0][2], cx), emit(scrut[1][1], cx), y, e2, e3)
+        if all(a[1] is None and (a[0][0] == "wild" or (a[0][0] == "bind" and a[0][1] in cx.subst)) for a in arms):
+            # match over an enum whose constructors the table names
+            return "(match %s with %s end)" % (emit(scrut, cx), " ".join(
+                "| %s => %s" % ("_" if a[0][0] == "wild" else cx.subst[a[0][1]], emit(a[2], cx)) for a in arms))
         raise TranslateError("unsupported match shape")
     raise TranslateError("unsupported construct %s" % t)
 
